@@ -63,7 +63,10 @@ func (h *StreamHandler) validateCommon(meta *TransferMetadata) error {
 	if err := h.authenticate(meta.Password); err != nil {
 		return err
 	}
-	return h.validatePath(meta.Path)
+	if err := h.validatePath(meta.Path); err != nil {
+		return err
+	}
+	return h.validateResolvedPath(meta.Path, true)
 }
 
 // ValidateUploadMetadata validates upload metadata and returns an error if invalid.
@@ -132,6 +135,69 @@ func (h *StreamHandler) validateSymlinkTarget(path string) error {
 	}
 
 	return nil
+}
+
+// validateResolvedPath resolves symbolic links in the part of path that already
+// exists and checks that the real location is still within the allowed paths.
+// The lexical check in validatePath cannot see a link in a parent directory.
+// followFinal says whether the operation follows a link in the last component
+// (open, chmod, list) or acts on the link itself (lstat, remove).
+func (h *StreamHandler) validateResolvedPath(path string, followFinal bool) error {
+	clean := filepath.Clean(path)
+
+	var rest []string
+	existing := clean
+	if !followFinal {
+		rest = []string{filepath.Base(clean)}
+		existing = filepath.Dir(clean)
+	}
+
+	// Walk up to the deepest existing ancestor; nothing below it can be a link
+	for {
+		if _, err := os.Lstat(existing); err == nil {
+			break
+		}
+		parent := filepath.Dir(existing)
+		if parent == existing {
+			break
+		}
+		rest = append([]string{filepath.Base(existing)}, rest...)
+		existing = parent
+	}
+
+	resolved, err := filepath.EvalSymlinks(existing)
+	if err != nil {
+		return fmt.Errorf("cannot resolve path: %w", err)
+	}
+
+	realPath := filepath.Join(append([]string{resolved}, rest...)...)
+	if realPath == clean || h.realPathAllowed(realPath) {
+		return nil
+	}
+	return fmt.Errorf("symlink target not allowed: path resolves outside allowed paths: %s", path)
+}
+
+// realPathAllowed checks a symlink-free path against the allowed paths. An allowed
+// directory may itself be reached through a symlink (e.g. /tmp on macOS), so
+// patterns are also tried with their base directory resolved.
+func (h *StreamHandler) realPathAllowed(realPath string) bool {
+	if h.validatePath(realPath) == nil {
+		return true
+	}
+	for _, pattern := range h.cfg.AllowedPaths {
+		base := patternBaseDir(pattern)
+		if base == "" {
+			continue
+		}
+		resolvedBase, err := filepath.EvalSymlinks(base)
+		if err != nil || resolvedBase == base {
+			continue
+		}
+		if isPathAllowed(realPath, resolvedBase+strings.TrimPrefix(normalizePath(pattern), base)) {
+			return true
+		}
+	}
+	return false
 }
 
 // authenticate checks if the password is correct.
